@@ -598,12 +598,16 @@ def mon_journal(steps, meta):
     wrong = set()       # stamps of configurations NOT in force
     wlabels = {}        # cfg id -> labels of the two write events
     wexpect = []        # (write step, label its line must carry or None for no line) since the last dump
+    qlabels = set()     # labels of the three queue outcomes, of every configuration of the script
+    cpl = None          # length of the common parent of the watch roots (from the start line)
     xlabels = {}        # cfg id -> labels of the two execution events
     editors = {}        # cfg id -> configured editor names
     xexpect = []        # (exec step, label) since the last dump
     for st in steps:
         if st.op == "cfg":
             for t in st.tok[2:]:
+                if t[:4] in ("ev4=", "ev5=", "ev6=") and t[4:] not in ("-", "h"):
+                    qlabels.add(unhexs(t[4:]))
                 if t.startswith("ev0=") or t.startswith("ev1="):
                     xlabels.setdefault(st.tok[1], {})[t[:3]] = None if t[4:] == "-" else unhexs(t[4:])
                 if t.startswith("editors="):
@@ -620,6 +624,7 @@ def mon_journal(steps, meta):
             ops_between.append(st)
             if st.op == "start" and st.result == "ok":
                 inforce = st.tok[1]
+                cpl = int(st.tok[2]) if len(st.tok) > 2 and st.tok[2].isdigit() else None
             if inforce in pats:
                 # an operation is stamped by the pattern in force when it began (a reload's own event included)
                 stamps.add(_expand_stamp(pats[inforce], clock))
@@ -680,6 +685,12 @@ def mon_journal(steps, meta):
                     last = f[-1]
                     if not (last in known_abs or any(a.endswith("/" + last) for a in known_abs)):
                         return "journal line %r does not end with the path of an event (fields must be separated by tabs)" % l
+                    # a queue outcome (stored / deleted / forbidden: a label of these three, no process id) names the
+                    # queued path - a file, or a project's directory - relative to the common parent, whole
+                    if cpl is not None and qlabels & set(f[:-1]) and not (xlabels.get(inforce) and set(x for x in xlabels[inforce].values() if x) & set(f[:-1])) \
+                            and not any(x.isdigit() for x in f[:-1]) and not any(a[cpl:] == last for a in known_abs if len(a) >= cpl):
+                        cands = sorted(a[cpl:] for a in known_abs if len(a) >= cpl and a.endswith("/" + last))
+                        return "journal line %r: the path of a queue outcome is the queued path relative to the common parent of the watch roots (%s), not %r" % (l, cands[:2] or "?", last)
                     if len(f) >= 2 and not f[-2].isdigit() and len(f) >= 3 and f[-2] == "":
                         return "journal line %r has an empty field" % l
                 if meta.get("stamps") and stamps:
